@@ -27,11 +27,11 @@ use sqlparser_derive::{Visit, VisitMut};
 pub use super::ddl::{ColumnDef, TableConstraint};
 
 use super::{
-    display_comma_separated, display_separated, ClusteredBy, CommentDef, Expr, FileFormat,
-    FromTable, HiveDistributionStyle, HiveFormat, HiveIOFormat, HiveRowFormat, Ident,
-    InsertAliases, MysqlInsertPriority, ObjectName, OnCommit, OnInsert, OneOrManyWithParens,
-    OrderByExpr, Query, RowAccessPolicy, SelectItem, SqlOption, SqliteOnConflict, TableEngine,
-    TableWithJoins, Tag, WrappedCollection,
+    display_comma_separated, display_separated, value::escape_single_quote_string, ClusteredBy,
+    CommentDef, Expr, FileFormat, FromTable, HiveDistributionStyle, HiveFormat, HiveIOFormat,
+    HiveRowFormat, Ident, InsertAliases, MysqlInsertPriority, ObjectName, OnCommit, OnInsert,
+    OneOrManyWithParens, OrderByExpr, Query, RowAccessPolicy, SelectItem, SqlOption,
+    SqliteOnConflict, TableEngine, TableWithJoins, Tag, WrappedCollection,
 };
 
 /// CREATE INDEX statement.
@@ -235,7 +235,7 @@ impl Display for CreateTable {
         // Hive table comment should be after column definitions, please refer to:
         // [Hive](https://cwiki.apache.org/confluence/display/Hive/LanguageManual+DDL#LanguageManualDDL-CreateTable)
         if let Some(CommentDef::AfterColumnDefsWithoutEq(comment)) = &self.comment {
-            write!(f, " COMMENT '{comment}'")?;
+            write!(f, " COMMENT '{}'", escape_single_quote_string(comment))?;
         }
 
         // Only for SQLite
@@ -317,7 +317,7 @@ impl Display for CreateTable {
             }
             if !self.external {
                 if let Some(loc) = location {
-                    write!(f, " LOCATION '{loc}'")?;
+                    write!(f, " LOCATION '{}'", escape_single_quote_string(loc))?;
                 }
             }
         }
@@ -326,7 +326,7 @@ impl Display for CreateTable {
                 write!(f, " STORED AS {file_format}")?;
             }
             if let Some(location) = &self.location {
-                write!(f, " LOCATION '{location}'")?;
+                write!(f, " LOCATION '{}'", escape_single_quote_string(location))?;
             }
         }
         if !self.table_properties.is_empty() {
@@ -345,10 +345,10 @@ impl Display for CreateTable {
         if let Some(comment_def) = &self.comment {
             match comment_def {
                 CommentDef::WithEq(comment) => {
-                    write!(f, " COMMENT = '{comment}'")?;
+                    write!(f, " COMMENT = '{}'", escape_single_quote_string(comment))?;
                 }
                 CommentDef::WithoutEq(comment) => {
-                    write!(f, " COMMENT '{comment}'")?;
+                    write!(f, " COMMENT '{}'", escape_single_quote_string(comment))?;
                 }
                 // For CommentDef::AfterColumnDefsWithoutEq will be displayed after column definition
                 CommentDef::AfterColumnDefsWithoutEq(_) => (),
@@ -414,7 +414,11 @@ impl Display for CreateTable {
         }
 
         if let Some(default_ddl_collation) = &self.default_ddl_collation {
-            write!(f, " DEFAULT_DDL_COLLATION='{default_ddl_collation}'",)?;
+            write!(
+                f,
+                " DEFAULT_DDL_COLLATION='{}'",
+                escape_single_quote_string(default_ddl_collation)
+            )?;
         }
 
         if let Some(with_aggregation_policy) = &self.with_aggregation_policy {
